@@ -60,6 +60,15 @@ theorem msum_scale (s : Finset α) (f g : α → ℝ) (c : ℝ) (hh : ∀ x ∈ 
     ∑ x ∈ s, g x = (∑ x ∈ s, f x) * c := by
   rw [Finset.sum_congr rfl hh, Finset.sum_mul]
 
+/-- msum_div -/
+theorem msum_div (s : Finset α) (f g : α → ℝ) (c : ℝ) (hh : ∀ x ∈ s, g x = f x / c) :
+    ∑ x ∈ s, g x = (∑ x ∈ s, f x) / c := by
+  rw [Finset.sum_congr rfl hh, Finset.sum_div]
+
+/-- msum_zero -/
+theorem msum_zero (s : Finset α) (f : α → ℝ) (h : ∀ x ∈ s, f x = 0) : ∑ x ∈ s, f x = 0 :=
+  Finset.sum_eq_zero h
+
 /-- msum_nonneg -/
 theorem msum_nonneg (s : Finset α) (f : α → ℝ) (h : ∀ x ∈ s, 0 ≤ f x) : 0 ≤ ∑ x ∈ s, f x :=
   Finset.sum_nonneg h
